@@ -22,4 +22,5 @@ func registerStreams(m map[string]Stream) {
 	m["tdrace"] = tdRaceStream{}
 	m["tdstore"] = tdStoreStream{}
 	m["clientwire"] = clientWireStream{}
+	m["tdlive"] = tdLiveStream{}
 }
